@@ -99,7 +99,7 @@ def check(run):
     run.subject('C16-R4')
     run.ok('C16-R4', 'inline memo rule', 'self-check on the built-in example: late reset and missing reset reported, correct mutator accepted', sample=False)
     from ..cachekey import check_caches
-    check_caches(run, [m for k, m in prog.modules.items() if k.startswith('cherab.tools.spectroscopy')], 'C16-K')
+    check_caches(run, [m for k, m in prog.modules.items() if k.startswith('cherab.tools.spectroscopy')], 'C16-K', prog=prog)
 
 
 def _lazy_getters(prog, ci):
